@@ -76,6 +76,22 @@ def _run(ctx):
                 filt = [fc for fc in po.calls if re.search(r"Iterator::filter$", fc.fn or "") and cb.path in (fc.full or "") + po.oname(fc.args[1], 3)]
                 neg = isnot and len(filt) == 1
         ok = len(cont) == 1 and len(rm) == 1 and len(keys) == 1 and neg
+        # retain form: `objects.retain(|id, _| { keep = refs.contains(id); if !keep { ids.push(*id) }; keep })` — one pass, the
+        # closure's result is the membership test itself and the id is noted on the not-contained edge only
+        ret_calls = [c for c in po.calls if re.search(r"BTreeMap::<.*>::retain$", c.fn or "") and (lib.origin_local(F, po, c.args[0]) or (0, 0, []))[2][-1:] and
+                     lib.origin_local(F, po, c.args[0])[2][-1].get("n") == "objects"]
+        if not ok and len(cont) == 1 and len(ret_calls) == 1 and not rm and cont[0][0] is not po:
+            cb, c = cont[0]
+            rets = [st for bi, si, st in cb.stmts() if "lhs" in st and st["lhs"]["l"] == 0 and not st["lhs"]["p"]]
+            keeps = len(rets) >= 1 and all(st["rv"]["k"] == "use" and lib.switch_on_operand(cb, st["rv"]["o"], c.dest["l"]) for st in rets)
+            pneg = False
+            for pc in cb.calls:
+                if re.search(r"Vec::<.*>::push$", pc.fn or ""):
+                    for g, s2 in lib.taken_edges(cb, pc.bb):
+                        if lib.switch_on(cb, g, c.dest["l"]):
+                            t = cb.term(g)
+                            pneg = any(v == "0" and x == s2 for v, x in t["tg"])
+            ok = keeps and pneg and (cb.path in (ret_calls[0].full or "") + po.oname(ret_calls[0].args[1], 3))
     ctx.ob("R-ORDER", "prune-exactly-unreachable", ok, "ids = keys not contained in traverse_objects(); exactly those are removed", po.where(),
            what="prune_objects no longer removes exactly the keys that traverse_objects() does not reach")
     # 4. delete_pages: Count - 1 along the Parent chain
